@@ -55,6 +55,11 @@ CHECKS = {
    note="Trusted: overlay instrumentation R1-R7 (R7: strictly increasing time.Now under the frozen fake clock); replica state read through an overlay-added accessor at scheduling points; cut-off windows <= 2 s because the uncapped exponential back-off otherwise exceeds any fixed progress bound.",
    technique="deterministic simulation: seeded schedules, message delay/loss/duplication and minority cut-off over the overlay-instrumented 2PC resource on three transports; invariant checks at every step and history oracles; shrunk replay files",
    ref="6 (C11)"),
+ "C19": dict(
+   text="Seeded search over every order of monitor start, archetype start, archetype end (normal, error, panic), monitor shutdown or isolation, and detector start, with drawn polling and time-out settings and an optional slow-network phase, using the real Monitor (ListenAndServe, RunArchetype, net/rpc) and SingleFailureDetector over a simulated network and clock. A probe reads every detector several times per interval: after the archetype has ended or its monitor has become unreachable every read past the settling time is TRUE (completeness, for ever within the horizon); while it runs on a reachable monitor with a calm network every read past the settling time is FALSE (accuracy after settling); no read takes longer than 1.5 polling intervals; no detector stays uninitialised; Close returns.",
+   note="Trusted: overlay instrumentation; settling time 2 intervals + 2 time-outs + 5 ms; no task stalls injected; Monitor.Close is not treated as unreachability because established connections stay served.",
+   technique="deterministic simulation: seeded event orders, schedules and network phases over the overlay-instrumented failure detector and net/rpc; time-indexed completeness/accuracy oracles on every probe read; shrunk replay files",
+   ref="6 (C19)"),
 }
 PENDING = "check not built yet in this session (planned, see DESIGN.md section 6); not claimed until its harness passes the determinism self-test"
 
